@@ -2,8 +2,8 @@
 (* Code -> spec binding for C17.  A trace is a history of update_dm / update_period calls on a  *)
 (* real FoldedData whose every profile is a distinct ramp, so that the rotation applied to each  *)
 (* profile can be read back from the data (-1 if the profile is not a rotation of the original).  *)
-(* The header carries the shift tables measured ONCE on fresh cubes (the property's own oracle:   *)
-(* "a fresh cube updated once"): sdm[d][j], sp[p][i].  TLC accepts a step only if afterwards       *)
+(* The header carries the DM shift table measured ONCE on fresh cubes, sdm[d][j] - which must itself be the shift the      *)
+(* dispersion law implies (LawShiftSet, exact rationals supplied by the harness) - and the period drift as an exact rational.  TLC accepts a step only if afterwards       *)
 (* every profile's rotation is the one implied by the CURRENT targets, whatever the history.       *)
 EXTENDS Util, TraceKit
 
@@ -22,6 +22,14 @@ DriftSet(q, i) ==
       k   == (2 * num + den) \div (2 * den)                      \* floor(x + 1/2)
   IN IF (2 * num + den) % (2 * den) = 0 THEN {k, k - 1} ELSE {k}
 Mod(x) == x % H.nbins
+(* The shift a DM target implies for sub-band j, from the dispersion law (the exact value x is supplied in fixed point,
+   H.lawq = floor(x * lq), with H.lawband = the float32 evaluation band of C09 in the same units): the nearest bin, or either
+   neighbour when x lies within the band of a half-integer *)
+LawShiftSet(d, j) ==
+  LET xq == H.lawq[d][j]
+      k0 == (2 * xq + H.lq) \div (2 * H.lq)
+  IN { k \in {k0 - 1, k0, k0 + 1} : 2 * Abs(k * H.lq - xq) <= H.lq + 2 * H.lawband[d][j] }
+DmTableIsTheLaw(d) == \A j \in 1..H.nbands : \E k \in LawShiftSet(d, j) : H.sdm[d][j] = Mod(k)
 (* rotation of profile (i, j) implied by the targets: the DM part from the table measured on a fresh cube
    (the dispersion law itself is C09), the period part from DriftSet *)
 ImpliedOK(rot, d, q) ==
@@ -34,6 +42,7 @@ Step(e) ==
   /\ period' = (IF e.op = "period" THEN e.target ELSE period)
   /\ Len(e.rot) = H.nints /\ \A i \in 1..H.nints : Len(e.rot[i]) = H.nbands
   /\ ImpliedOK(e.rot, dm', period')                \* history-free, rotation only
+  /\ DmTableIsTheLaw(dm')                          \* ... by the shift the dispersion law implies for the installed DM
   /\ e.rep_dm = dm' /\ e.rep_period = period'      \* the reported DM and period describe the data
 
 TInit == tid \in 1..NT /\ l = 1 /\ dm = 1 /\ period = 1 /\ MarkInit(tid)
